@@ -73,6 +73,10 @@ pub fn observe(c: &Case, st: &mut Stats) {
     if c.history.quiescent {
         st.inc("histories_quiescent", 1);
     }
+    if super::taint::first_drop(&c.history).is_some() {
+        st.inc("histories_with_dropped_fold_iterations", 1);
+        st.inc("runs_on_data_with_dropped_fold_iterations", super::taint::by_step(&c.history).iter().filter(|b| **b).count() as u64);
+    }
     if c.history.cut {
         st.inc("histories_cut_by_step_bound", 1);
     }
@@ -80,6 +84,12 @@ pub fn observe(c: &Case, st: &mut Stats) {
         ins.walk(&mut |i| st.label("instruction_kinds", i.kind()));
     }
     for s in &c.history.steps {
+        if super::taint::dropped_entries(&s.out) > 0 {
+            st.inc("runs_leaving_fold_lore_unclaimed", 1);
+        }
+        if super::taint::dropped_states(&s.out) > 0 {
+            st.inc("runs_dropping_recorded_fold_iterations", 1);
+        }
         st.label("ret_code_classes", &format!("{:?}", s.class()));
         if let Some(v) = &s.out_v {
             let shape: Vec<u8> = crate::proj::states(v)
@@ -105,11 +115,149 @@ pub fn history_sample(c: &Case, max_steps: usize) -> Value {
     describe(&c.world, &c.history, max_steps)
 }
 
-/// Run `n` honest cases in parallel, calling `f` on each.
+/// Hand-written scripts (peers as @P0..@P3) whose delivery orders are explored exhaustively in every
+/// history-based check, in addition to the generated ones: shapes the generator reaches only rarely.
+pub const DIRECTED: &[(&str, usize, &str)] = &[
+    // two values of one stream share a generation at P1 but not at P2, under a sequential fold whose
+    // first iteration waits at P1 (the recorded fold-lore finding, DESIGN.md 12.6)
+    ("seq-fold-generation-split", 3, r#"(seq (call "@P1" ("svc" "f1") [] x) (seq (par (seq (call "@P1" ("svc" "f2") [] y) (ap "a" $s)) (call "@P0" ("svc" "f3") [] z)) (seq (ap "seed" $s) (fold $s it (seq (seq (call "@P2" ("svc" "f4") [it] r) (call "@P1" ("svc" "f5") [r] q)) (next it))))))"#),
+    // the same with a parallel fold: every value is visited everywhere
+    ("par-fold-generation-split", 3, r#"(seq (call "@P1" ("svc" "f1") [] x) (seq (par (seq (call "@P1" ("svc" "f2") [] y) (ap "a" $s)) (call "@P0" ("svc" "f3") [] z)) (seq (ap "seed" $s) (fold $s it (par (seq (call "@P2" ("svc" "f4") [it] r) (call "@P1" ("svc" "f5") [r] q)) (next it))))))"#),
+    // appends on three peers, canon on one of them, the canon used afterwards on another
+    ("canon-after-remote-appends", 3, r#"(seq (par (call "@P0" ("svc" "f1") [] $s) (par (call "@P1" ("svc" "f2") [] $s) (call "@P2" ("svc" "f3") [] $s))) (seq (canon "@P1" $s #can) (seq (call "@P2" ("svc" "f4") [#can] u) (call "@P0" ("svc" "f5") [#can.length] w))))"#),
+    // a failing remote call caught by xor inside a scalar fold in par position
+    ("xor-in-par-fold", 3, r#"(seq (call "@P0" ("svc" "arr1") [] xs) (fold xs it (par (xor (call "@P1" ("svc" "e2") [it] a) (call "@P2" ("svc" "f3") [it :error:.$.error_code] b)) (next it))))"#),
+    // bounded recursive stream: the fold appends to the stream it iterates
+    ("recursive-stream", 3, r#"(seq (call "@P0" ("svc" "f1") [] x) (seq (ap "seed" $s) (fold $s it (seq (xor (match it "seed" (ap "more" $s)) (null)) (seq (call "@P1" ("svc" "f2") [it] $t) (seq (call "@P2" ("svc" "f3") [it] y) (next it)))))))"#),
+    // new-scoped stream inside a stream fold, canonicalised per iteration
+    ("new-stream-in-fold", 3, r#"(seq (par (call "@P0" ("svc" "f1") [] $s) (call "@P1" ("svc" "f2") [] $s)) (fold $s it (par (new $n (seq (call "@P2" ("svc" "f3") [it] $n) (seq (canon "@P2" $n #cn) (call "@P0" ("svc" "f4") [#cn] z)))) (next it))))"#),
+];
+
+pub const DIRECTED_BASE: u64 = 1_000_000_000;
+
+/// Fixed schedules run before the exploration of a directed script (S = start, Dq = deliver queue
+/// entry q, Cp:i,j = hand peer p the results of its pending requests i and j).
+pub const WITNESS_SCHEDULES: &[(&str, &str)] = &[
+    // P2 sees "seed" (from P0) before "a" (from P1); P1, which holds both in one generation, then
+    // merges P2's data while its first iteration ("a") still waits for a local call
+    ("seq-fold-generation-split", "S D0 C1:1 C1:2 D0 C0:1 D1 C2:1 D0 C2:2 D0 D0 C1:3 D0"),
+];
+
+fn parse_schedule(text: &str) -> Vec<Decision> {
+    text.split_whitespace()
+        .filter_map(|t| {
+            if t == "S" {
+                Some(Decision::Start)
+            } else if let Some(q) = t.strip_prefix('D') {
+                q.parse().ok().map(|q| Decision::Deliver { q, results: vec![] })
+            } else if let Some(r) = t.strip_prefix('C') {
+                let (p, ids) = r.split_once(':')?;
+                Some(Decision::Complete { peer: p.parse().ok()?, ids: ids.split(',').filter_map(|i| i.parse().ok()).collect() })
+            } else {
+                None
+            }
+        })
+        .collect()
+}
+
+/// Replay a fixed schedule as far as it is applicable to the states the interpreter produces.
+fn run_witness_schedule(w: &World, decisions: &[Decision]) -> History {
+    let mut st = SimState::new(w.peers.len());
+    let mut cache = DecodeCache::default();
+    let mut steps = vec![];
+    let mut done = vec![];
+    for d in decisions {
+        let ok = match d {
+            Decision::Start => !st.started,
+            Decision::Deliver { q, .. } => *q < st.queue.len(),
+            Decision::Complete { peer, ids } => *peer < st.hosts.len() && ids.iter().all(|i| st.hosts[*peer].pending.contains_key(i)),
+            Decision::Duplicate { i } => *i < st.sent_log.len(),
+        };
+        if !ok {
+            break;
+        }
+        done.push(d.clone());
+        if let Some(s) = st.apply(w, d, &mut cache, steps.len()) {
+            steps.push(s);
+        }
+    }
+    let complete = done.len() == decisions.len();
+    History { steps, decisions: done, quiescent: st.quiescent(), cut: !complete, dropped_unknown: st.dropped_unknown, final_state: st }
+}
+
+/// Explore the delivery orders of the directed scripts exhaustively (no duplication) up to a state
+/// budget, calling `f` on every maximal history.
+fn run_directed<F>(cfg: &Cfg, tag: u64, f: &F) -> Stats
+where
+    F: Fn(&Case, u64, &mut Rng, &mut Stats) + Sync,
+{
+    let mut sub = cfg.clone();
+    if let Some(k) = cfg.only_case {
+        if k < DIRECTED_BASE {
+            return Stats::default();
+        }
+        sub.only_case = Some(k - DIRECTED_BASE);
+    }
+    par_cases(&sub, DIRECTED.len() as u64, |idx, st| {
+        let Some((name, n_peers, text)) = DIRECTED.get(idx as usize) else { return };
+        let ids = standard_peer_ids(*n_peers);
+        let mut air = text.to_string();
+        for (i, id) in ids.iter().enumerate() {
+            air = air.replace(&format!("@P{i}"), id);
+        }
+        let world = World::new(*n_peers, air, None, &format!("directed-{}-{idx}", cfg.seed), 3);
+        let (budget, max_histories) = if cfg.thorough { (40_000, 4_000) } else { (2_000, 120) };
+        let mut visit_owned = |history: History, st: &mut Stats| {
+            let w2 = World::new(*n_peers, world.air.clone(), None, &world.particle_id, 3);
+            let c = Case { world: w2, history, frag: Frag::Stream, has_streams: true, n_calls: 0 };
+            st.inc("directed_histories", 1);
+            st.label("directed_scripts", name);
+            observe(&c, st);
+            let mut rng = Rng::derive(cfg.seed ^ 0x5555, tag, DIRECTED_BASE + idx);
+            super::taint::set_context(Some(&c.history));
+            f(&c, DIRECTED_BASE + idx, &mut rng, st);
+            super::taint::set_context(None);
+        };
+        for (wname, sched) in WITNESS_SCHEDULES {
+            if wname == name {
+                let h = run_witness_schedule(&world, &parse_schedule(sched));
+                if h.cut {
+                    st.inc("witness_schedules_not_fully_applicable", 1);
+                }
+                st.inc("witness_schedules_run", 1);
+                visit_owned(h, st);
+            }
+        }
+        // the explorer lends the history: rebuild an owned one for the shared Case type
+        let mut visit = |h: &History| {
+            let history = run_decisions(&world, &h.decisions);
+            visit_owned(history, st)
+        };
+        let (states, _hist, truncated) = explore_exhaustive_capped(&world, budget, 60, max_histories, &mut visit);
+        st.inc("directed_states_explored", states as u64);
+        if truncated {
+            st.inc("directed_explorations_truncated_by_budget", 1);
+        }
+    })
+}
+
+/// Run `n` honest cases in parallel, calling `f` on each; then the directed scripts.
 pub fn run_honest<F>(cfg: &Cfg, tag: u64, n: u64, frags: &[Frag], f: F) -> Stats
 where
     F: Fn(&Case, u64, &mut Rng, &mut Stats) + Sync,
 {
+    let mut all = run_generated(cfg, tag, n, frags, &f);
+    all.merge(run_directed(cfg, tag, &f));
+    all
+}
+
+fn run_generated<F>(cfg: &Cfg, tag: u64, n: u64, frags: &[Frag], f: &F) -> Stats
+where
+    F: Fn(&Case, u64, &mut Rng, &mut Stats) + Sync,
+{
+    if matches!(cfg.only_case, Some(k) if k >= DIRECTED_BASE) {
+        return Stats::default();
+    }
     par_cases(cfg, n, |case, st| {
         let built = crate::invoke::guarded(|| build_case(cfg, tag, case, frags));
         let built = match built {
@@ -125,7 +273,9 @@ where
         if let Some(c) = built {
             observe(&c, st);
             let mut rng = Rng::derive(cfg.seed ^ 0x5555, tag, case);
+            super::taint::set_context(Some(&c.history));
             f(&c, case, &mut rng, st);
+            super::taint::set_context(None);
             if case < 8 {
                 st.sample(history_sample(&c, 12));
             }
